@@ -17,7 +17,7 @@ use iwes::router::server::Server;
 use iwes::router::{LspClient, ServerConfig};
 use liwe::graph::{Graph, Reader};
 use liwe::markdown::MarkdownReader;
-use liwe::model::config::{Configuration, MarkdownOptions};
+use liwe::model::config::{BlockAction, Configuration, Context, MarkdownOptions, Model};
 use liwe::model::{Key, State};
 use lsp_server::Message;
 use lsp_types::Url;
@@ -31,6 +31,27 @@ pub fn module() -> PropModule {
 }
 
 const WORKER_LIMIT: Duration = Duration::from_secs(8);
+
+/// name of the environment variable the "remote" model reads its API key from (set by the harness)
+const REMOTE_KEY_ENV: &str = "IWE_VERIF_KEY";
+
+/// The configuration of the remote-action scenario: a custom action `custom.rewrite` whose model has
+/// an API key (so `llm_query` really calls the endpoint) and lives at a closed local port: the
+/// connection is refused at once, no network is needed.  On the tree as it is the failed `send()`
+/// panics in the worker and the request is answered with InternalError; whatever the handler does
+/// with the failure, the request must be answered and the worker must end.
+fn remote_configuration() -> Configuration {
+    let mut c = Configuration::default();
+    c.models.insert(
+        "remote".to_string(),
+        Model { api_key_env: REMOTE_KEY_ENV.to_string(), base_url: "http://127.0.0.1:9".to_string(), name: "m".to_string(), ..Default::default() },
+    );
+    c.actions.insert(
+        "rewrite".to_string(),
+        BlockAction { title: "Rewrite".to_string(), model: "remote".to_string(), prompt_template: "Rewrite the marked block.\n\n{{context}}\n".to_string(), context: Context::Document },
+    );
+    c
+}
 
 fn std_docs() -> Vec<(String, String)> {
     [
@@ -203,10 +224,37 @@ fn req_item(r: (String, Value, String)) -> Value {
     json!({"k": "req", "method": r.0, "params": r.1, "tag": r.2})
 }
 
+/// A remote-action case (its own server, configured with `remote_configuration`): a few ordinary
+/// requests, the custom action asked for on a line (mostly a paragraph line), the resolve of the
+/// offered action - the handler calls the model endpoint, which refuses the connection -, a resolve
+/// of the same kind with a stale id, a didChange on another note, an ordinary request.
+fn gen_remote(rng: &mut Rng, i: usize) -> Value {
+    const PARAS: &[(&str, u64)] = &[("file:///base/1.md", 4), ("file:///base/1.md", 8), ("file:///base/4.md", 2), ("file:///base/5.md", 2), ("file:///base/2.md", 2), ("file:///base/d/3.md", 6)];
+    let mut items = vec![];
+    for _ in 0..rng.below(3) {
+        items.push(req_item(gen_request(rng)));
+    }
+    let (u, line) = if rng.chance(3, 4) { *rng.pick(PARAS) } else { (URIS[rng.below(5)].0, rng.below(14) as u64) };
+    let stale = *rng.pick(&[3u64, 17, 40, 44, 1000000]);
+    items.push(json!({"k": "act", "uri": u, "line": line, "only": ["custom.rewrite"], "stale": {"kind": "custom.rewrite", "data": stale}, "tag": "remote"}));
+    let other = loop {
+        let x = URIS[rng.below(5)].0;
+        if x != u { break x; }
+    };
+    items.push(json!({"k": "note", "method": "textDocument/didChange", "params": {"textDocument": {"uri": other, "version": 2}, "contentChanges": [{"text": *rng.pick(TEXTS)}]}, "hostile": false}));
+    items.push(req_item(gen_request(rng)));
+    let end = if i % 20 == 17 { "drop" } else { "exit" };
+    json!({"model": false, "remote": true, "items": items, "end": end})
+}
+
 pub fn generate(rng: &mut Rng, thorough: bool) -> Vec<Value> {
     let mut out = vec![];
     let n = if thorough { 1600 } else { 110 };
     for i in 0..n {
+        if i % (if thorough { 40 } else { 10 }) == 7 {
+            out.push(gen_remote(rng, i));
+            continue;
+        }
         let len = rng.range(4, 14);
         let mut items = vec![];
         for _ in 0..len {
@@ -260,6 +308,7 @@ pub fn label(v: &Value) -> String {
             _ => add(if it["hostile"].as_bool().unwrap_or(false) { "hostile-note" } else { "note" }, &mut f),
         }
     }
+    if v["remote"].as_bool().unwrap_or(false) { f.push("remote-action"); }
     f.sort();
     format!("end={} {}", v["end"].as_str().unwrap_or("?"), f.join("+"))
 }
@@ -333,6 +382,9 @@ struct Shadow {
     graph: Graph,
     keyer: Server,
     options: MarkdownOptions,
+    /// the server of the case has custom (LLM) actions, which the handler model does not have:
+    /// code actions and their resolve are then outside the tie
+    custom: bool,
 }
 
 impl Shadow {
@@ -349,7 +401,7 @@ impl Shadow {
             lsp_client: LspClient::Unknown,
             configuration,
         });
-        Shadow { graph, keyer, options }
+        Shadow { graph, keyer, options, custom: false }
     }
 
     /// `uri.to_key(&self.base_path)` of the server
@@ -428,6 +480,7 @@ fn model_request(sh: &Shadow, method: &str, params: &Value) -> String {
     };
     match method {
         "shutdown" | "workspace/executeCommand" => outside.clone(),
+        "textDocument/codeAction" | "codeAction/resolve" if sh.custom => outside.clone(),
         "textDocument/inlayHint" => match de::<InlayHintParams>(params) {
             Some(p) => keyed(&p.text_document.uri, &|k| gapp("Server.RInlayHint", &[k])),
             None => ill,
@@ -608,8 +661,20 @@ pub fn execute(v: &Value) -> String {
     drv::install_panic_hook();
     let _ = drv::take_panics();
     let docs = std_docs();
-    let mut srv = Srv::start(&docs, drv::configuration(v["model"].as_bool().unwrap_or(false)), false);
+    let remote = v["remote"].as_bool().unwrap_or(false);
+    if remote {
+        // the key of the "remote" model; no proxy between the server and the closed local port
+        std::env::set_var(REMOTE_KEY_ENV, "k");
+        std::env::set_var("NO_PROXY", "127.0.0.1");
+        std::env::set_var("no_proxy", "127.0.0.1");
+    }
+    let configuration = if remote { remote_configuration() } else { drv::configuration(v["model"].as_bool().unwrap_or(false)) };
+    let mut srv = Srv::start(&docs, configuration, false);
     let mut shadow = Shadow::new(&docs);
+    shadow.custom = remote;
+    // every request must be answered, every notification applied within WORKER_LIMIT; once that has
+    // failed in a case (the case fails anyway) the rest of it is not waited for that long
+    let limit = std::cell::Cell::new(WORKER_LIMIT);
     // the start state for the model: the notes in import order (sorted by name), read by the real reader
     let mut sorted = docs.clone();
     sorted.sort_by(|a, b| a.0.cmp(&b.0));
@@ -636,7 +701,9 @@ pub fn execute(v: &Value) -> String {
         }
         let mut done = vec![];
         for (id, _) in &ids {
-            done.push(srv.wait_gone(*id, WORKER_LIMIT));
+            let d = srv.wait_gone(*id, limit.get());
+            if !d { limit.set(Duration::from_secs(1)); }
+            done.push(d);
         }
         srv.drain();
         let panics = drv::take_panics();
@@ -687,12 +754,18 @@ pub fn execute(v: &Value) -> String {
             }
             Some("act") => {
                 let line = it["line"].as_u64().unwrap_or(0);
-                let params = json!({"textDocument": td(it["uri"].as_str().unwrap_or("")), "range": {"start": {"line": line, "character": 0}, "end": {"line": line, "character": 0}}, "context": {"diagnostics": []}});
+                let mut params = json!({"textDocument": td(it["uri"].as_str().unwrap_or("")), "range": {"start": {"line": line, "character": 0}, "end": {"line": line, "character": 0}}, "context": {"diagnostics": []}});
+                if !it["only"].is_null() { params["context"]["only"] = it["only"].clone(); }
                 let o = run_reqs(&mut srv, &shadow, &[("textDocument/codeAction".to_string(), params)], &mut next_id, &mut sent_ids).pop().unwrap();
                 let offered: Vec<Value> = drv::responses_to(&srv.received, o.id).first().and_then(|r| r.result.as_ref()).and_then(|v| v.as_array().cloned()).unwrap_or_default();
                 let (p, p2, same) = probe(&mut srv, &shadow, &mut next_id, &mut sent_ids, &mut baseline);
                 items.push(gapp("Check_C12.IReq", &[gobs(&o), gobs(&p), gobs(&p2), gbool(same)]));
-                for a in offered.into_iter().take(3) {
+                let mut resolves: Vec<Value> = offered.into_iter().take(3).collect();
+                if it["stale"].is_object() {
+                    // the same kind of action with an id that was not offered
+                    resolves.push(json!({"title": "t", "kind": it["stale"]["kind"], "data": it["stale"]["data"]}));
+                }
+                for a in resolves {
                     let o = run_reqs(&mut srv, &shadow, &[("codeAction/resolve".to_string(), a)], &mut next_id, &mut sent_ids).pop().unwrap();
                     let (p, p2, same) = probe(&mut srv, &shadow, &mut next_id, &mut sent_ids, &mut baseline);
                     items.push(gapp("Check_C12.IReq", &[gobs(&o), gobs(&p), gobs(&p2), gbool(same)]));
@@ -706,7 +779,9 @@ pub fn execute(v: &Value) -> String {
             }
             _ => {
                 srv.notify(it["method"].as_str().unwrap_or(""), it["params"].clone());
-                let panicked = srv.wait_note_end(WORKER_LIMIT).unwrap_or(true);
+                let ended = srv.wait_note_end(limit.get());
+                if ended.is_none() { limit.set(Duration::from_secs(1)); }
+                let panicked = ended.unwrap_or(true);
                 let _ = drv::take_panics();
                 baseline = None;
                 let note = model_note(&mut shadow, it["method"].as_str().unwrap_or(""), &it["params"]);
